@@ -23,6 +23,13 @@ def run_scenarios(ctx, n, check):
             seed = r.choice(["http://site.example/", "http://site.example/", "http://site.example/same", "http://site.example/red/1",
                              "http://site.example/api/data.json", "http://archive.org/x", "http://site.example/private/", "http://localhost/",
                              "http://site.example/?v=2"])
+            if k % 5 == 4:
+                # a seed the queue hands over in another spelling of an excluded URL, through the real stage worker: the filters apply to
+                # what the URL *is*, however it was spelt
+                cfg = dict(cfg, excludeStrings=["site.example/private/"] if k % 2 else [], regexes=[] if k % 2 else [r"^http://site\.example/private/"],
+                           includeHosts=[], includeStrings=[], viaWorker=True)
+                seed = r.choice(["http://SITE.example/private/", "http://site.example:80/private/", "http://site.example/a/../private/",
+                                 "http://site.example/./private/", "HTTP://Site.Example/private/"])
             start = len(run.log)
             act, tree, trace = stage.run_seed(run, cfg, site, seed, seed_id="seed%d" % k, hops=r.choice([0, 0, 1, 2]),
                                               dc_match=stage.dc_matcher(cfg), regex_match=stage.regex_matcher(cfg))
@@ -95,6 +102,11 @@ def check_scope(ctx, cfg, site, seed, act, tree, trace, run, start):
     for p, rq in enumerate(trace["requests"]):
         ok, why = stage.in_scope(cfg, rq["canon"])
         ctx.count("requests")
+        canon = (rq.get("oracle") or {}).get("canon")
+        if ok and canon and canon != rq["canon"]:
+            # the request's text is not the canonical form of the URL (as the normaliser gives it on a fresh object): judge that one too
+            ok, why = stage.in_scope(cfg, canon)
+            ctx.count("requests:text-differs-from-canonical")
         if not ok:
             ctx.violation("a request was built for %s which is out of scope (%s) under %s" % (rq["canon"], why, {k: v for k, v in cfg.items() if v}),
                           {"domain": "stage", "cfg": cfg, "seed": seed, "url": rq["canon"], "reason": why, "site": site.pages})
